@@ -12,6 +12,7 @@ import (
 
 	_ "vh/gram"
 	_ "vh/h15"
+	_ "vh/htree"
 	_ "vh/harith"
 	_ "vh/htrim"
 	_ "vh/hlit"
